@@ -687,6 +687,16 @@ func (b *Backend) respondList(c *Conn, ex *Exchange) bool {
 			ct = "text/html"
 		}
 		return b.simple(c, ex, 200, ct, phaseData(ph))
+	case ph.Mode == "cllie":
+		// a well-formed listing under a Content-Length that has nothing to do with it (huge), then close
+		b.sim.Fault("list.content-length-lie")
+		ex.FaultFired = "cllie@list"
+		ex.Status = 200
+		body := ListingBody(b.cfg.Type, models)
+		hdr := fmt.Sprintf("HTTP/1.1 200 OK\r\nContent-Type: application/json\r\nContent-Length: %d\r\n\r\n", ph.Arg)
+		b.write(c, ex, append([]byte(hdr), body...))
+		c.Close()
+		return false
 	case ph.Mode == "big":
 		b.sim.Fault("list.big")
 		ex.FaultFired = "big@list"
